@@ -296,6 +296,9 @@ def shrink(chk, job, kinds_of_problem):
     return "\n".join(lines) + "\n"
 
 
+PRIORITY = ["crash", "error", "nonfinite", "negative", "sum", "ground", "ratio", "offset", "trace", "estate", "wstate", "eall", "dm-missing", "model"]
+
+
 def run(chk):
     quick = chk.tier == "quick"
     ok, log = chk.prove(["extract/Extract_C09.vo", "extract/Extract_ED.vo", "theories/ThermalExamples.vo"])
@@ -342,7 +345,8 @@ def run(chk):
             kinds = set(p[0] for p in problems)
             small = shrink(chk, job, kinds) if chk.tier != "replay" else text
             what = "; ".join(p[1] for p in problems[:2])
-            key = "%s beta=%g offset=%s %s | %s" % (sorted(kinds)[0], beta, kind, fam, small.replace("\n", ";"))
+            kind0 = ([k for k in PRIORITY if k in kinds] + sorted(kinds))[0]
+            key = "%s beta=%g offset=%s %s | %s" % (kind0, beta, kind, fam, small.replace("\n", ";"))
             chk.violation(key, "DensityMatrix (%s, beta=%g, offset %s): %s" % (fam, beta, kind, what),
                           {"scenario": with_offset(small, kind) + "beta %s\n" % repr(beta), "family": fam, "beta": beta, "offset": kind,
                            "problems": problems, "harness": "h_ed", "queries": ["dm", "avg i j for all pairs"]})
